@@ -156,6 +156,18 @@ func c01Case(r *mon.Run, rng *rand.Rand, s *rfix.Star, idx int) {
 	shape := rfix.Shape(rng.IntN(int(rfix.NumShapes)))
 	now := time.Now()
 	sc := s.GenScenario(rng, shape, now.Unix())
+	if rng.IntN(6) == 0 {
+		// long paths: up to the format's 64 hop fields
+		room := 64 - sc.Spec.NumHops()
+		extra := make([]int, len(sc.Spec.Segs))
+		for k := rng.IntN(room + 1); k > 0; k-- {
+			i := rng.IntN(len(extra))
+			if len(sc.Spec.Segs[i].Seg.Hops)+extra[i] < 63 {
+				extra[i]++
+			}
+		}
+		sc.FuzzPadSegments(rng, extra)
+	}
 	ext := rng.IntN(4)
 	// EPIC wrapping where this router is neither penultimate nor last hop (there the
 	// hop validation fields decide, which is C13's subject): the embedded SCION path is
